@@ -2418,6 +2418,15 @@ func (c *RegionCache) loadRegion(bo *retry.Backoffer, key []byte, isEndKey bool,
 			searchPrev = true
 			continue
 		}
+		if isEndKey && searchPrev &&
+			!(bytes.Compare(reg.Meta.StartKey, key) < 0 && (len(reg.Meta.EndKey) == 0 || bytes.Compare(key, reg.Meta.EndKey) <= 0)) {
+			// The two answers describe different moments (one of them is stale): the "previous" region does not
+			// end at or after the key. Start over, from the PD leader.
+			searchPrev = false
+			backoffErr = errors.Errorf("previous region of key %q does not contain it as an end key, encode_key: %q",
+				redact.Key(key), redact.KeyBytes(c.codec.EncodeRegionKey(key)))
+			continue
+		}
 		return newRegion(bo, c, reg)
 	}
 }
